@@ -26,7 +26,7 @@ CONSTANTS
     CritVariants,\* set of criteria [c, x] the build mode chooses from
     MinCrits, MaxCrits,
     Press,       \* subset of {"id", "rev", "gap"}
-    Styles,      \* subset of {"plain", "wide", "tabs", "crlf"}: whitespace / line-end variants of the rendered file
+    Styles,      \* subset of {"plain", "wide", "tabs", "crlf", "nofinal"}: whitespace / line-end variants of the rendered file
     InfoBlocks,  \* subset of BOOLEAN: trailing parameter block present?
     CheckIP,     \* evaluate the IP-level M1 obligations
     CheckText,   \* evaluate ParseFile(Render(fc)) = inst
@@ -45,6 +45,7 @@ StyleOf(nm) ==
       [] nm = "wide"  -> [sep |-> <<32, 32, 32>>, lead |-> <<32>>, trail |-> <<32, 32>>, colsep |-> <<32, 32>>, eol |-> <<10>>]
       [] nm = "tabs"  -> [sep |-> <<9>>, lead |-> <<>>, trail |-> <<9>>, colsep |-> <<9, 32>>, eol |-> <<10>>]
       [] nm = "crlf"  -> [sep |-> <<32>>, lead |-> <<>>, trail |-> <<>>, colsep |-> <<32>>, eol |-> <<13, 10>>]
+      [] nm = "nofinal" -> [sep |-> <<32>>, lead |-> <<>>, trail |-> <<>>, colsep |-> <<32>>, eol |-> <<10>>, final |-> FALSE]
 
 -----------------------------------------------------------------------------
 (* component sets *)
